@@ -339,7 +339,7 @@ theorem gr_ct_full_size (lv : Level) (v : CtV) :
   rw [← hh]
 
 theorem gr_size_loop (limits : List Nat) (n upper : Nat) (k : Nat) (acc : Nat) (start : Nat) (hk : start + k ≤ limits.length) :
-    ct_serialized_size_loop1 limits n upper (List.range' start k) acc
+    ct_serialized_size_loop1 n limits upper (List.range' start k) acc
       = .ok (acc + (((limits.drop start).take k).map (fun w => upper * n * w)).sum) := by
   induction k generalizing acc start with
   | zero => simp [ct_serialized_size_loop1, ppure]
@@ -352,7 +352,7 @@ theorem gr_size_loop (limits : List Nat) (n upper : Nat) (k : Nat) (acc : Nat) (
     simp only [List.take_succ_cons, List.map_cons, List.sum_cons, Nat.add_assoc]
 
 theorem gr_terms_loop (limits : List Nat) (n tc upper : Nat) (hu : 1 ≤ upper) (k : Nat) (acc : Nat) (start : Nat) (hk : start + k ≤ limits.length) :
-    ct_serialized_terms_size_loop1 limits n tc upper (List.range' start k) acc
+    ct_serialized_terms_size_loop1 tc n limits upper (List.range' start k) acc
       = .ok (acc + (((limits.drop start).take k).map (fun w => (tc + (upper - 1) * n) * w)).sum) := by
   induction k generalizing acc start with
   | zero => simp [ct_serialized_terms_size_loop1, ppure]
